@@ -347,8 +347,17 @@ def check(ctx):
                "first the groups that have a model at exactly their keys are matched (inner join on all keys)" if ok0 else f"initial match is {ir.show(init, maxdepth=3)}")
         LEN = ("call", ("global", "len"), (AGG,), ())
         okit = it == ("call", ("global", "range"), (("const", 1), ("bin", "+", LEN, ("const", 1))), ())
-        ctx.ob("C15.R3.range", f"{af.qualname}|i = 1 .. len(aggregate)", okit, af.where(), "i runs over every key level" if okit else f"loop runs over {ir.show(it, maxdepth=3)}")
         I_ = next((x for x in ir.walk(bodyt) if x[0] == "elem" and x[2] == lo[1]), None)
+        RNG0 = ("call", ("global", "range"), (LEN,), ())
+        if not okit and I_ is not None and it in (("call", ("global", "reversed"), (RNG0,), ()),
+                                                   ("call", ("global", "range"), (("bin", "-", LEN, ("const", 1)), ("const", -1), ("const", -1)), ())):
+            # the same walk indexed from the other end: level = n - 1 .. 0 is i = n - level = 1 .. n in the same order; the body is read with
+            # level written as n - i
+            okit = True
+            I2 = ("param", "<i>")
+            bodyt = ir.subst(bodyt, {I_: ("bin", "-", LEN, I2)})
+            I_ = I2
+        ctx.ob("C15.R3.range", f"{af.qualname}|i = 1 .. len(aggregate)", okit, af.where(), "i runs over every key level" if okit else f"loop runs over {ir.show(it, maxdepth=3)}")
         okbody = bodyt[0] == "call" and ir.show(bodyt[1]).endswith("concat") and bodyt[2][0][0] == "list" and len(bodyt[2][0][1]) == 2 \
             and bodyt[2][0][1][0][0] == "loopin"
         ctx.ob("C15.R3.accumulate", f"{af.qualname}|newly matched rows are appended", okbody, af.where(),
